@@ -126,6 +126,14 @@ class Algebra:
                         for at2, w in self.apply(a[1], []):
                             out.append((at + at2, ("agg", ERR, (w,))))
                 return out
+            if c in ("core::option::Option::<&T>::cloned", "core::option::Option::<&T>::copied") and len(a) == 1:
+                out = []
+                for at, v in self.split(a[0], SOME, NONE, IS_SOME):
+                    if _is_agg(v, SOME):
+                        out.append((at, ("agg", SOME, (("call", "core::clone::Clone::clone", (v[2][0],), ()),))))
+                    else:
+                        out.append((at, v))
+                return out
             if c == O + "map" and len(a) == 2:
                 out = []
                 for at, v in self.split(a[0], SOME, NONE, IS_SOME):
